@@ -154,7 +154,7 @@ struct TcpEngine : Engine {
         c.data[0] = wl.bytes(l0); c.data[1] = wl.bytes(l1);
         c.isn[0] = pick_isn(cfg, l0); c.isn[1] = pick_isn(cfg, l1);
         for (int s = 0; s < 2; ++s) { c.mss[s] = (int)cfg.small(1, 1460); if (c.data[s].size() / c.mss[s] > 300) c.mss[s] = (int)(c.data[s].size() / 300 + 1); c.wnd[s] = c.mss[s] * (int)cfg.range(1, 10); }
-        c.sack = cfg.chance(0.7); c.tsopt = cfg.chance(0.2); c.fin_with_data = cfg.chance(0.3); { Rng sa = cfg.fork("sackasym"); c.sack_asym = sa.chance(0.2) ? (int)sa.range(1, 2) : 0; }
+        c.sack = cfg.chance(0.7); c.tsopt = cfg.chance(0.2); c.fin_with_data = cfg.chance(0.3); { Rng sa = cfg.fork("sackasym"); c.sack_asym = sa.chance(0.2) ? (int)sa.range(1, 2) : 0; c.ecn = sa.chance(0.2); }
         return c;
     }
 
@@ -167,6 +167,9 @@ struct TcpEngine : Engine {
         World w; w.net_rng = root.fork("net"); net_swarm(cfg, w.net, p.cfg);
         p.cfg.set("style", chaos ? "chaos" : "endpoint").set("cleanup", cfg.chance(0.5) ? 1 : 0).set("init", c.handshake ? "syn" : "ctor")
              .set("follower", c.handshake && cfg.chance(0.6) ? 1 : 0).set("legacy", c.handshake && !c.addr[0].is6() && cfg.chance(0.6) ? 1 : 0);
+        // the application gives up on a hole: Flow::advance_sequence() at a random frame moves the delivery point ahead; from then on that direction is
+        // judged by the model-free half of the guarantee only (counter = bytes held, nothing at or below the delivery point, delivery point never moves back)
+        { Rng sk = root.fork("skip"); p.cfg.set("skipat", sk.chance(0.12) ? (int64_t)sk.small(1, 150) : -1).set("skipdir", (int64_t)sk.below(2)).set("skipby", (int64_t)sk.pick(std::vector<int>{1, 2, 7, 50, 300, 5000})); }
         { Rng lc = root.fork("legcopy"); p.cfg.set("legcopy", lc.chance(0.35) ? (int64_t)lc.small(0, 120) : -1).set("legcopykind", (int64_t)lc.below(2)); }
         if (!chaos) {
             ConnSim sim(w, c, root.fork("conn").next()); sim.start(); w.q.run(INT64_MAX, 400000);
@@ -283,6 +286,7 @@ struct TcpEngine : Engine {
         if (!hs_ok) { use_follower = false; use_legacy = false; }
         for (auto& kv : p.cfg.v) if (kv.first.compare(0, 6, "fault.") == 0) st.ctr[kv.first] += strtoull(kv.second.c_str(), 0, 10);
         RefDir ref[2]; for (int d = 0; d < 2; ++d) ref[d].init(c.isn[d] + 1, &c.data[d]);
+        const int64_t skipat = p.cfg.num("skipat", -1); const int skipdir = (int)p.cfg.num("skipdir", 0); const uint32_t skipby = (uint32_t)p.cfg.num("skipby", 1); bool skipped[2] = { false, false }; uint32_t skip_seq[2] = { 0, 0 };
         // (A) stand-alone Flow per direction
         FlowSut fs[2];
         for (int d = 0; d < 2; ++d) {
@@ -340,6 +344,11 @@ struct TcpEngine : Engine {
                 const size_t ooo0 = f.ooo_calls; const int64_t off0 = (int64_t)seq_diff(d.tcp.seq, ref[dir].base + (uint32_t)k_before); const size_t plen = d.tcp.payload.size();
                 const bool expect_ooo = !(d.tcp.flags & TH_SYN) && plen > 0 && (off0 > 0 || off0 + (int64_t)plen < 0);
                 f.flow->process_packet(*pdu);
+                if (skipped[dir]) {      // model-free invariants only
+                    st.inc("chk.flow_after_skip"); uint64_t held = 0; for (auto& ch : f.flow->buffered_payload()) { held += ch.second.size(); if (seq_diff(ch.first, f.flow->sequence_number()) <= 0) return Verdict::bad("flow:stale-buffered", fmt("after advance_sequence: chunk at seq %u (len %zu) is at or below the delivery point %u", ch.first, ch.second.size(), f.flow->sequence_number()), idx); }
+                    if (held != (uint64_t)f.flow->total_buffered_bytes()) return Verdict::bad("flow:accounting", fmt("after advance_sequence: total_buffered_bytes()=%u but chunks hold %llu bytes", (unsigned)f.flow->total_buffered_bytes(), (unsigned long long)held), idx);
+                    if (seq_diff(f.flow->sequence_number(), skip_seq[dir]) < 0) return Verdict::bad("flow:sequence-number", "delivery point moved backwards after advance_sequence", idx); skip_seq[dir] = f.flow->sequence_number();
+                } else {
                 st.inc("chk.out_of_order_callback"); if (expect_ooo) st.inc("probe.out_of_order_callback_expected");
                 if (f.ooo_calls - ooo0 != (expect_ooo ? 1u : 0u)) return Verdict::bad("flow:out-of-order-callback", fmt("dir %d: segment at offset %lld (len %zu) relative to the delivery point: out-of-order callback fired %zu times, expected %d", dir, (long long)off0, plen, f.ooo_calls - ooo0, expect_ooo ? 1 : 0), idx);
                 if (expect_ooo && (f.ooo_seq != d.tcp.seq || f.ooo_payload != d.tcp.payload)) return Verdict::bad("flow:out-of-order-callback", "out-of-order callback reported another sequence number or payload than the segment's", idx);
@@ -354,6 +363,12 @@ struct TcpEngine : Engine {
                 if (f.flow->sequence_number() != ref[dir].base + (uint32_t)ref[dir].k) return Verdict::bad("flow:sequence-number", fmt("sequence_number()=%u expected %u", f.flow->sequence_number(), ref[dir].base + (uint32_t)ref[dir].k), idx);
                 std::string why; if (!check_buffered(*f.flow, ref[dir], why, st)) return Verdict::bad(why.find("total_buffered") != std::string::npos ? "flow:accounting" : "flow:stale-buffered", why, idx);
                 if (f.callbacks > cb0 && got.size() < before) return Verdict::bad("flow:callback-shrank", "data shrank across a callback", idx);
+                }
+                if (skipat >= 0 && idx >= skipat && !skipped[skipdir] && !(init_syn_d[skipdir] && !(fs[skipdir].flow->sequence_number() != (uint32_t)(0xdead0000u + skipdir)))) {
+                    FlowSut& g = fs[skipdir]; uint32_t target = g.flow->sequence_number() + skipby; g.flow->advance_sequence(target); skipped[skipdir] = true; skip_seq[skipdir] = g.flow->sequence_number(); st.inc("fault.application_skips_hole");
+                    if (g.flow->sequence_number() != target) return Verdict::bad("flow:sequence-number", fmt("advance_sequence(%u) left the delivery point at %u", target, g.flow->sequence_number()), idx);
+                    uint64_t held = 0; for (auto& ch : g.flow->buffered_payload()) { held += ch.second.size(); if (seq_diff(ch.first, target) <= 0) return Verdict::bad("flow:stale-buffered", fmt("advance_sequence(%u) left a chunk at seq %u buffered", target, ch.first), idx); }
+                    if (held != (uint64_t)g.flow->total_buffered_bytes()) return Verdict::bad("flow:accounting", fmt("right after advance_sequence: total_buffered_bytes()=%u but chunks hold %llu bytes", (unsigned)g.flow->total_buffered_bytes(), (unsigned long long)held), idx); }
             }
             // ---- (B)
             if (use_follower && !fol_dead) {
